@@ -32,6 +32,7 @@ class Monitor(object):
         out = []
         for label, log in self.logs.items():
             live = {}
+            errored = set()
             ended = False
             for ev in log:
                 if ended:
@@ -39,11 +40,15 @@ class Monitor(object):
                     break
                 if ev[0] == 'END':
                     ended = True
-                    if live:
+                    if [k for k in live if k not in errored]:
                         out.append((label, 'stream completed with live keys', sorted(live)))
                     continue
                 kind, idx, key = ev[0], ev[1], ev[-1]
                 if kind == 'c':
+                    if idx in live and idx in errored:
+                        # a keyed operator may have terminated this lifetime with the error it forwarded: re-creation is then legitimate
+                        del live[idx]
+                        errored.discard(idx)
                     if idx in live:
                         if live[idx] == key:
                             out.append((label, 'create of a live key', key))
@@ -53,6 +58,8 @@ class Monitor(object):
                 elif kind in ('n', 'e'):
                     if live.get(idx, None) != key:
                         out.append((label, 'item/error for a key that is not live', key))
+                    elif kind == 'e':
+                        errored.add(idx)
                 elif kind == 'd':
                     if live.get(idx, None) != key:
                         out.append((label, 'completion of a key that is not live', key))
@@ -105,6 +112,21 @@ def raising(p):
         items = list(a)
         m = Monitor()
         inner = [m.tap('in:0'), rs.ops.identity(), m.tap('in:1')]
+        def g(i):
+            if i % 3 == 0:
+                raise _Boom(i)
+            return i
+        if kind.startswith('pre_'):
+            # the error is raised by a map upstream and ENTERS the keyed operator (no handler in between): it may terminate open lifetimes
+            # with that error, but must not emit anything for a lifetime that is not open
+            k2 = kind[4:]
+            body_ = [m.tap('in:0'), rs.ops.count(), m.tap('in:1')]
+            kop = {'roll22': lambda: rs.data.roll(2, 2, body_), 'roll31': lambda: rs.data.roll(3, 1, body_), 'split': lambda: rs.data.split(lambda i: i % 2, body_),
+                   'group': lambda: rs.ops.group_by(lambda i: i % 2, body_), 'tsplit': lambda: rs.data.time_split(lambda i: i, inactive_timeout=2, pipeline=body_)}[k2]()
+            pipe = [rs.ops.map(g), m.tap('out:0'), kop, m.tap('out:1'), rs.error.ignore(), m.tap('out:2')]
+            D.src(items).pipe(rs.state.with_memory_store(pipe)).subscribe(on_next=lambda i: None, on_error=lambda e: None)
+            fl = m.flags()
+            return (not fl) or fail(kind=kind, items=items, flags=fl[:5])
         if kind == 'split':
             op = rs.data.split(f, inner)
         elif kind == 'group':
@@ -179,6 +201,9 @@ def obligations(tier, seed):
             if n and br ** n > (100 if q else 600):
                 n -= 1
             obs.append(Ob(PROP, 'wellformed', dict(desc=d, n=n), budget=b, group='programs', bound=dict(items=n, pipeline=C.show(d))))
+    # NOT registered: kind='pre_*' (an error raised upstream ENTERS a keyed operator because no handler sits directly after the failing operator).
+    # C13 specifies handlers placed directly after the failing operator; what stateful operators do with a mux error that reaches them (they treat it as the
+    # end of that key's state) and with later items of that key is not specified by any property, so no verdict is claimed there (see DESIGN.md section 9).
     for kind in ('split', 'group', 'tsplit'):
         for parent in (None, 'roll'):
             obs.append(Ob(PROP, 'raising', dict(kind=kind, n=3 if q else 4, parent=parent), budget=b, group='raising user function', bound=dict(items=3 if q else 4, operator=kind, parent=parent)))
